@@ -694,7 +694,7 @@ func runModel(x *core.Ctx, r *core.Rng) {
 				continue
 			case kk < 6:
 				h.kind = "log"
-				h.path = filepath.Join(scratch, t+"-"+h.id+".log")
+				h.path = filepath.Join(scratch, fmt.Sprintf("%s-%s-%d.log", t, h.id, nh))
 				spec.Kind = "log"
 				spec.Options = map[string]interface{}{"path": h.path}
 			case kk < 9:
@@ -718,7 +718,7 @@ func runModel(x *core.Ctx, r *core.Rng) {
 				spec.Options = map[string]interface{}{"topics": toIface(tg)}
 			default:
 				h.kind = "aggregate"
-				h.aggID = "agg-" + h.id
+				h.aggID = fmt.Sprintf("agg-%s-%d", h.id, nh)
 				spec.Kind = "aggregate"
 				// durations are given as a number of nanoseconds (the string form is not accepted)
 				spec.Options = map[string]interface{}{"interval": float64(20 * time.Millisecond), "topic": aggTopic, "id": h.aggID}
@@ -1041,6 +1041,7 @@ func (m *modelState) checkHandler(key string, h *refHandler) bool {
 		}
 		return o
 	}
+	rawGot := got
 	got, exp := norm(got), norm(h.expect)
 	for i := 0; i < len(got) || i < len(exp); i++ {
 		switch {
@@ -1054,7 +1055,7 @@ func (m *modelState) checkHandler(key string, h *refHandler) bool {
 			m.fail("handler-delivery", "a handler received a wrong / out of order event", "handler %s (%s, match %s): delivery %d is %+v, expected %+v", key, h.kind, matchText(h), i, got[i], exp[i])
 			return false
 		case got[i].prev != exp[i].prev:
-			m.fail("previous-level", "previous level differs from the level of the preceding event with the same ID", "handler %s: delivery %d (%s %s): previous level %v, expected %v", key, i, got[i].id, got[i].msg, got[i].prev, exp[i].prev)
+			m.fail("previous-level", "previous level differs from the level of the preceding event with the same ID", "handler %s: delivery %d (%s %s): previous level %v, expected %v; received in this order: %+v", key, i, got[i].id, got[i].msg, got[i].prev, exp[i].prev, rawGot)
 			return false
 		}
 	}
